@@ -304,7 +304,14 @@ def rule_own_fields(ctx: Ctx, rep: Report) -> None:
     rule_own_fields_forwarded(ctx, rep, "C06.own_fields", ('btclib.script.script_pub_key', 'btclib.bip21'), 5)
 
 
+def rule_params_forwarded_(ctx: Ctx, rep: Report) -> None:
+    """C06.params_forwarded: a parameter is handed on to callees that have a parameter of the same name (see sigcommon.rule_params_forwarded)."""
+    from rules.sigcommon import rule_params_forwarded
+    rule_params_forwarded(ctx, rep, "C06.params_forwarded", ('btclib.b32', 'btclib.b58', 'btclib.base58', 'btclib.bech32', 'btclib.to_pub_key', 'btclib.to_prv_key', 'btclib.script.script_pub_key', 'btclib.network'), 60)
+
+
 RULES = [
+    ("C06.params_forwarded", rule_params_forwarded_),
     ("C06.own_fields", rule_own_fields),
     ("C06.one_network", rule_one_network),
     ("C06.network_membership", rule_network_membership),
